@@ -137,6 +137,25 @@ fn trees(r: &mut Report) {
     }
     let got = no_panic(|| record_artifacts(&[rs.as_str(), format!("{}/a", rs).as_str()], None, None));
     r.case("overlapping-arguments", json!({"paths": ["<root>", "<root>/a"]}), "Err (the same file would be recorded twice)", format!("{:?}", got.as_ref().map(|x| x.as_ref().map(|m| m.len()).map_err(|e| e.to_string().len()))), matches!(&got, Ok(Err(_))));
+    // several arguments whose names are string prefixes of each other without one containing the other (build / build-cache,
+    // a file and its .asc): every argument is walked, in whatever order they are given
+    {
+        let t = crate::fixture::tmpdir();
+        let ts = t.path().to_str().unwrap().to_string();
+        for (p, c) in [("build/out.bin", "1"), ("build-cache/obj.o", "2"), ("build.d/x", "3"), ("foo.tar.gz", "4"), ("foo.tar.gz.asc", "5"), ("foo.tar", "6")] {
+            let f = t.path().join(p); std::fs::create_dir_all(f.parent().unwrap()).unwrap(); std::fs::write(&f, c).unwrap();
+        }
+        for args in [vec!["build", "build-cache"], vec!["build-cache", "build"], vec!["build", "build.d", "build-cache"], vec!["foo.tar.gz", "foo.tar.gz.asc"], vec!["foo.tar.gz.asc", "foo.tar", "foo.tar.gz"], vec!["foo.tar", "build", "foo.tar.gz", "build-cache"]] {
+            let full: Vec<String> = args.iter().map(|a| format!("{}/{}", ts, a)).collect();
+            let refs: Vec<&str> = full.iter().map(|x| x.as_str()).collect();
+            let got = no_panic(|| record_artifacts(&refs, None, None));
+            let mut want: Vec<String> = vec![];
+            for a in &args { let p = t.path().join(a); if p.is_file() { want.push(a.to_string()); } else { for e in std::fs::read_dir(&p).unwrap() { want.push(format!("{}/{}", a, e.unwrap().file_name().to_string_lossy())); } } }
+            want.sort();
+            let have: Option<Vec<String>> = match &got { Ok(Ok(m)) => { let mut v: Vec<String> = m.keys().map(|k| k.value().trim_start_matches(&format!("{}/", ts)).to_string()).collect(); v.sort(); Some(v) } _ => None };
+            r.case("sibling-arguments-with-a-common-name-prefix", json!({"arguments": args}), &format!("{:?}", want), format!("{:?}", have), have.as_ref() == Some(&want));
+        }
+    }
     for algs in [vec!["sha256"], vec!["sha512"], vec!["sha256", "sha512"], vec!["sha512", "sha256"]] {
         let got = no_panic(|| record_artifacts(&[rs.as_str()], Some(&algs), None));
         let ok = matches!(&got, Ok(Ok(m)) if m.values().all(|h| h.len() == algs.len() && algs.iter().all(|a| h.contains_key(&if *a == "sha256" { HashAlgorithm::Sha256 } else { HashAlgorithm::Sha512 }))));
